@@ -30,7 +30,7 @@ func sub(m map[string]string, ss ...string) []string {
 }
 
 func propC09(c *Ctx) {
-	c.Explanation = "Decides, for all inputs and schedules, the structural mechanisms behind 'exactly the addressed socket or nobody': (D1) findEndpointLocked is loop-free and its complete path table is the four-step most-specific match of the property - keys (LocalPort,LocalAddress,RemotePort,RemoteAddress) = full id, id without local address, id without remote part, local port only, in that order, returning at the first hit; (D2) deliverPacket hands the packet to exactly the endpoint found and reports true only then; NIC.DeliverTransportPacket builds the id from the parsed ports and the route addresses and tries NIC demuxer, stack demuxer, default handler, unknown-destination handler each only when all previous ones declined; registerEndpoint rolls back exactly the protocols it registered; singleRegisterEndpoint rejects duplicates and inserts in the same critical section; (D3) DeliverNetworkPacket passes a packet to a network endpoint only when getRef found the destination address on this NIC, and getRef creates a temporary endpoint only under promiscuous mode or an owning subnet; forwarding only when enabled; (D4) endpoints/NIC/Stack tables are accessed only under their mutexes (lockset); (D5) Subnet.Contains and Route.Match return true only after every byte matched under the mask. D7 also pairs every tryIncRef of the module with a release, hand-over or return on every path on which it succeeded. NOT decided: that the maps contain what a history of register/close calls implies; reference counting."
+	c.Explanation = "Decides, for all inputs and schedules, the structural mechanisms behind 'exactly the addressed socket or nobody': (D1) findEndpointLocked is loop-free and its complete path table is the four-step most-specific match of the property - keys (LocalPort,LocalAddress,RemotePort,RemoteAddress) = full id, id without local address, id without remote part, local port only, in that order, returning at the first hit; (D2) deliverPacket hands the packet to exactly the endpoint found and reports true only then; NIC.DeliverTransportPacket builds the id from the parsed ports and the route addresses and tries NIC demuxer, stack demuxer, default handler, unknown-destination handler each only when all previous ones declined; registerEndpoint rolls back exactly the protocols it registered; singleRegisterEndpoint rejects duplicates and inserts in the same critical section; (D3) DeliverNetworkPacket passes a packet to a network endpoint only when getRef found the destination address on this NIC, and getRef creates a temporary endpoint only under promiscuous mode or an owning subnet; forwarding only when enabled; (D4) endpoints/NIC/Stack tables are accessed only under their mutexes (lockset); (D5) Subnet.Contains and Route.Match return true only after every byte matched under the mask. D7 also pairs every tryIncRef of the module with a release, hand-over or return on every path on which it succeeded. (D8) the isRegistered flag follows registration and inline unregistration at once (shared with C03/H9); D7 also tables the reference counter itself (decRef removes at zero, tryIncRef never revives zero). NOT decided: that the maps contain what a history of register/close calls implies; reference counting."
 	c.Assumptions = []string{"map lookups with equal keys observed inside one critical section return the same value"}
 
 	// D4 lockset
@@ -223,6 +223,9 @@ func propC09(c *Ctx) {
 		c.Ordered(d6, fn, []string{"register new", "unregister old", "record new scope"}, []func(Site) bool{isCall("(*udp.endpoint).registerWithStack"), isCall("(*stack.Stack).UnregisterTransportEndpoint"), isStore("udp.endpoint.regNICID")})
 	}
 
+	d8 := c.Rule("D8", "K2 must-follow + K7 coupled updates (shared with C03/H9)", "the endpoint's isRegistered flag follows every registration and inline unregistration at once", 6)
+	registrationFlagRule(c, d8)
+
 	d7 := c.Rule("D7", "K2 acquire/release pairing", "endpoint references taken for a lookup are released or handed on", 5)
 	acq := []string{"(*stack.NIC).findEndpoint", "(*stack.NIC).primaryEndpoint", "(*stack.NIC).getRef"}
 	rel := []string{"(*stack.referencedNetworkEndpoint).decRef"}
@@ -231,6 +234,25 @@ func propC09(c *Ctx) {
 		if fn := c.Fn(d7, n); fn != nil {
 			c.RefBalanced(d7, fn, acq, rel, xfer)
 		}
+	}
+	// the counter itself
+	ref := "(*stack.referencedNetworkEndpoint)."
+	if fn := c.Fn(d7, ref+"decRef"); fn != nil {
+		c.CheckSites(d7, fn, []SiteSpec{
+			{Kind: "call", Target: "sync/atomic.AddInt32", Args: []string{"&$0.refs", "-1"}, Guards: []string{}, Exact: true, N: 1, Why: "one reference is given up"},
+			{Kind: "call", Target: "(*stack.NIC).removeEndpoint", Args: []string{"$0.nic", "$0"}, Guards: []string{"(0 == sync/atomic.AddInt32(&$0.refs, -1))"}, Exact: true, N: 1, Why: "the endpoint leaves the NIC exactly when the last reference goes"},
+		})
+	}
+	if fn := c.Fn(d7, ref+"incRef"); fn != nil {
+		c.CheckSites(d7, fn, []SiteSpec{{Kind: "call", Target: "sync/atomic.AddInt32", Args: []string{"&$0.refs", "1"}, Guards: []string{}, Exact: true, N: 1, Why: "one more reference"}})
+	}
+	if fn := c.Fn(d7, ref+"tryIncRef"); fn != nil {
+		ld := "sync/atomic.LoadInt32(&$0.refs)"
+		c.CheckSites(d7, fn, []SiteSpec{
+			{Kind: "return", Args: []string{"false"}, Guards: []string{"(0 == " + ld + ")"}, Exact: true, N: 1, Why: "an endpoint whose count reached zero is never revived"},
+			{Kind: "call", Target: "sync/atomic.CompareAndSwapInt32", Args: []string{"&$0.refs", ld, "(1 + " + ld + ")"}, Guards: []string{"!(0 == " + ld + ")"}, Exact: true, N: 1, Why: "the increment is a CAS from the value that was seen non-zero"},
+			{Kind: "return", Args: []string{"true"}, Guards: []string{"!(0 == " + ld + ")", "sync/atomic.CompareAndSwapInt32(&$0.refs, " + ld + ", (1 + " + ld + "))"}, Exact: true, N: 1, Why: "success only when the CAS succeeded"},
+		})
 	}
 	// the boolean form: every tryIncRef in the module (closed world)
 	nTry := 0
